@@ -8,12 +8,14 @@ def check(rep):
     ctx = Ctx(rep)
     ER.rule_random_guarded(ctx)
     ER.rule_no_entropy(ctx)
+    ER.rule_union_order_stable(ctx)
     ER.rule_hash_pure(ctx, rid="C01.HASH-PRIMITIVE")
     ER.rule_value_keyed_caches(ctx, rid="C01.NO-VALUE-KEYED-CACHE", modules={"binning/binning.py", "experiment_evaluator.py"})
     ER.rule_retained_arguments(ctx, rid="C01.NO-RETAINED-ARGUMENT")
     ER.rule_call_forwards(ctx, rid="C01.CALL-FORWARDS", aspects=("result",))
     ER.rule_skip_guard(ctx, rid="C01.SKIP-GUARD")
     ER.rule_fingerprint_recorded(ctx, rid="C01.FINGERPRINT-RECORDED")
+    ER.rule_copy_protocol(ctx, rid="C01.COPY-IS-CURRENT")
     ER.rule_installed_function(ctx, rid="C01.INSTALLED-FUNCTION", strict=False, facets=("namespace", "installed"))
     # state that survives a compilation and is never reset can make the same text compile differently the next time
     COMPILE_PATH = {"language/lexer.py", "language/grammar.py", "codegen/python/python_generator.py", "experiment_evaluator.py",
